@@ -83,16 +83,22 @@ def counting_lexer(stats=None, factor=60, floor=2000):
 
 
 @contextmanager
-def backstop(seconds=60):
-    """Wall-clock backstop; expiry means *inconclusive*, never a violation."""
+def backstop(seconds=60, cpu=False):
+    """Backstop for calls that run without a token budget.  cpu=False: wall clock
+    (expiry means *inconclusive*, never a violation; for calls that may block on
+    input).  cpu=True: CPU time of this process - independent of how busy the machine
+    is, so that a limit of minutes on a call that takes milliseconds can be read as
+    "does not return"."""
 
     def handler(signum, frame):
         raise WallClockBackstop()
 
-    old = signal.signal(signal.SIGALRM, handler)
-    signal.setitimer(signal.ITIMER_REAL, seconds)
+    sig, timer = (signal.SIGVTALRM, signal.ITIMER_VIRTUAL) if cpu else \
+        (signal.SIGALRM, signal.ITIMER_REAL)
+    old = signal.signal(sig, handler)
+    signal.setitimer(timer, seconds)
     try:
         yield
     finally:
-        signal.setitimer(signal.ITIMER_REAL, 0)
-        signal.signal(signal.SIGALRM, old)
+        signal.setitimer(timer, 0)
+        signal.signal(sig, old)
